@@ -152,7 +152,8 @@ def verdict (st : State) (c : Call) (bd : Dump) (braw : List (List String)) (ad 
         else ["hypothesis-allowed-sets-covered-fails-on-a-WF-before-dump"]) ++
       -- B2: C08_restrict_allowed_sets, first part: the tree-level clause allowed-sets holds for every WF BEFORE dump
       (if (allowedOKT topo (flagIncludeDisallowed bd) && decide (osUniqueT tPU tree) && decide (osUniqueT tNUMA tree)) || !wfB.isEmpty
-        then [] else ["hypothesis-allowedOK-or-osindex-unique-fails-on-a-WF-before-dump"])
+        then [] else ["hypothesis-allowedOK-or-osindex-unique-fails-on-a-WF-before-dump"]) ++
+      (if notFilteredT bd.filters tree || !wfB.isEmpty then [] else ["hypothesis-notFiltered-fails-on-a-WF-before-dump"])
     let (topo', ret) := restrict topo c.set c.flags
     match ret with
     | .rootRemoved => ("MODEL-UNDEFINED root-would-be-removed", .unknown)
@@ -188,6 +189,7 @@ def verdict (st : State) (c : Call) (bd : Dump) (braw : List (List String)) (ad 
           then [] else ["allowedOK-not-preserved"]) ++
         (if (decide (osUniqueT tPU topo'.tree) || !decide (osUniqueT tPU tree)) && (decide (osUniqueT tNUMA topo'.tree) || !decide (osUniqueT tNUMA tree))
           then [] else ["osindex-unique-not-preserved"]) ++
+        (if notFilteredT topo'.filters topo'.tree || !notFilteredT bd.filters tree then [] else ["notFiltered-not-preserved"]) ++
         (if wfB.isEmpty then
           (match plan topo c.set c.flags with
            | none => []
